@@ -18,6 +18,7 @@ import Klev.Proto
 import Klev.Flock
 import Klev.Gen.Facts
 import Driver.Bytes
+import Driver.NotifyDrv
 open Klev Klev.Proto
 
 structure Side where
@@ -49,6 +50,7 @@ structure DState where
   main : Side := {}
   bak  : Side := {}
   mh   : MhState := {}
+  nt   : DNotify.NtState := {}
   line : Nat := 0
   diffs : Nat := 0
   viols : Nat := 0
@@ -500,6 +502,15 @@ def processLine (st : DState) (raw : String) : DState :=
       match opToks with
       | [] => st
       | op0 :: restOps =>
+        if op0.startsWith "nt." then
+          let (n', model, vs) := DNotify.handle st.nt opToks implToks
+          let implTxt := String.intercalate " " implToks
+          let mdiff := !(DNotify.sameResult model implToks)
+          let out := if mdiff then st.out.push s!"DIFF {st.line} {lhs} impl={implTxt} model={model}" else st.out
+          let out := vs.foldl (fun o v => o.push s!"VIOL {st.line} {v} {lhs} impl={implTxt}") out
+          { st with nt := n', out := out, diffs := st.diffs + (if mdiff then 1 else 0), viols := st.viols + vs.length,
+                    counts := bump st.counts op0 }
+        else
         if op0.startsWith "mh." then
           let (m', model, vs) := handleMh st.mh opToks implToks
           let implTxt := String.intercalate " " implToks
